@@ -127,6 +127,7 @@ def exe_runs(img, inp, scratch, limit, trace):
     return out
 
 
+@driver.hang_is_failure(lambda why: (why, {'status': 'unknown', 'exit': 0, 'out': '', 'consumed': 0, 'steps': 0}))
 def check(img, inp, scratch, limit, trace):
     """Returns '' or a description."""
     ref = refrun(img, inp, scratch, max_steps=(limit + 1 if limit else 5000000))
